@@ -99,6 +99,19 @@ def rand_pda(rng, names="plain", max_states=3, max_stack=3, max_trans=6, profile
                 t = [r, rng.choice([None] + inputs), X, rng.choice(states), []]
                 if t not in trans:
                     trans.append(t)
+    if rng.random() < 0.3 and names != "adv":
+        # the stack is emptied at the moment a state without any outgoing transition is entered (a state that is only ever a target)
+        sink = "sink"
+        states = states + [sink]
+        srcs = [t for t in trans if len(t[4]) <= 1] or trans
+        q, a, A = rng.choice(srcs)[0], rng.choice([None] + inputs), stack[0] if rng.random() < 0.6 else rng.choice(stack)
+        t = [q, a, A, sink, []]
+        if t not in trans:
+            trans.append(t)
+        if rng.random() < 0.5:
+            t = [states[0], rng.choice(inputs), stack[0], sink, []]
+            if t not in trans:
+                trans.append(t)
     finals = [] if profile == "nofinal" else rng.sample(states, rng.randint(1 if profile == "falike" else 0, ns))
     return {"states": states, "inputs": inputs, "stack": stack, "trans": trans, "start": states[0], "z0": stack[0],
             "finals": finals, "profile": profile, "names": names}
